@@ -95,6 +95,10 @@ func c15Variants(src string) (base string, vs []c15Variant) {
 		if !gen.NeedsSeparator(ts[g-1], ts[g]) {
 			vs = append(vs, c15Variant{joinWithGap(ts, g, ""), "gap:no-whitespace", gapName})
 		}
+		if ts[g-1].Kind == "number" && ts[g].Kind == "word" {
+			// a run of digits ends at the first letter: `exactly 3digit`, `skip 1take 2`, `== 1then` are the spaced forms
+			vs = append(vs, c15Variant{joinWithGap(ts, g, ""), "gap:number-glued-to-the-next-word", gapName})
+		}
 	}
 	// a comment long enough to push the rest of the program across the lexer's 4096-byte read buffer
 	if len(ts) > 2 {
@@ -176,7 +180,7 @@ func C15(r *drv.Run) {
 	if !quick(r) {
 		ngen = 4000
 	}
-	r.Rule = "truncated programs (every token prefix of the hand corpus, accepted or not) under every filler behind their last token and in front of their first; commands with an empty body in every amount form (alone, first, in the middle, last in a source) among the bases; every filler also behind the last token and before the first; valid programs as token lists (hand corpus covering every production incl. process statements/expressions, amount clauses, named loops, ranges, caseless, regex literals; repository examples; generated programs) x EVERY gap between adjacent tokens x {newline, tab run, CRLF, line comment, block comment glued, block comment with blanks, multi-line block comment, two line comments, two glued block comments, block then line comment, three comments mixed with blanks, vertical tab, form feed, block comments whose text mentions `--(` or consists of dashes and parentheses, the empty block comment, a line comment mentioning block syntax, line and block comments holding bytes that are not valid UTF-8} and - where the neighbours are not both words - removal of the whitespace; every keyword individually and all together in UPPER and MiXeD case; `function` written for its alias `transform`; leading/trailing layout; the same text, and its CR LF form, read from a file through CompileFile; a 5 MiB gap (blank lines, one block comment, line comments) between the commands of two programs, through CompileFile and through Compile; eight White_Space code points beyond ASCII (U+0085, U+00A0, U+1680, U+2000, U+2003, U+2028, U+205F, U+3000) in one gap per program, judged as a group: all of them separate tokens or none does. Oracle (metamorphic): variant accepted iff the single-blank original is, reflect.DeepEqual + canonical-dump equality of the syntax trees (hook H6), identical Run results on 3 texts (a text on which the original alone needs more than 4 000 VM steps is dropped for its variants, which run under a budget of 30 000). Non-trivial = every distinct variant whose three verdicts agreed; distinct by variant source."
+	r.Rule = "truncated programs (every token prefix of the hand corpus, accepted or not) under every filler behind their last token and in front of their first; commands with an empty body in every amount form (alone, first, in the middle, last in a source) among the bases; every filler also behind the last token and before the first; valid programs as token lists (hand corpus covering every production incl. process statements/expressions, amount clauses, named loops, ranges, caseless, regex literals; repository examples; generated programs) x EVERY gap between adjacent tokens x {newline, tab run, CRLF, line comment, block comment glued, block comment with blanks, multi-line block comment, two line comments, two glued block comments, block then line comment, three comments mixed with blanks, vertical tab, form feed, block comments whose text mentions `--(` or consists of dashes and parentheses, the empty block comment, a line comment mentioning block syntax, line and block comments holding bytes that are not valid UTF-8} and - where the neighbours are not both words - removal of the whitespace (also between a number and the word behind it: digits end at the first letter); every keyword individually and all together in UPPER and MiXeD case; `function` written for its alias `transform`; leading/trailing layout; the same text, and its CR LF form, read from a file through CompileFile; a 5 MiB gap (blank lines, one block comment, line comments) between the commands of two programs, through CompileFile and through Compile; eight White_Space code points beyond ASCII (U+0085, U+00A0, U+1680, U+2000, U+2003, U+2028, U+205F, U+3000) in one gap per program, judged as a group: all of them separate tokens or none does. Oracle (metamorphic): variant accepted iff the single-blank original is, reflect.DeepEqual + canonical-dump equality of the syntax trees (hook H6), identical Run results on 3 texts (a text on which the original alone needs more than 4 000 VM steps is dropped for its variants, which run under a budget of 30 000). Non-trivial = every distinct variant whose three verdicts agreed; distinct by variant source."
 	r.Assumptions = []string{
 		"a block comment glued directly after '-' is not a layout change (it lexes as a different token sequence) and is not generated",
 		"the harness tokenizer's token boundaries are those of the documented lexing rules; it is only applied to programs known to be valid",
